@@ -111,6 +111,63 @@ def sort_phase(run, tier, wd, binary):
         run.count_case(ln, True)
 
 
+def real_phase(run, prop, tier, wd, binary, scs, tr_inv, mon_inv, mon_props, tag="b"):
+    """(B) real App.Run/Close executions validated by TraceApp.tla; registers violations; returns drift count"""
+    bd = os.path.join(wd, tag)
+    os.makedirs(bd)
+    vlib.stage_specs(bd, ["Ordering.tla", "App.tla", "TraceApp.tla"])
+    vlib.write_ndjson(os.path.join(bd, "in.ndjson"), scs)
+    p = vlib.run_harness(binary, ["app", "-in", "in.ndjson", "-out", "at.ndjson"], cwd=bd, timeout=1800)
+    if p.returncode != 0:
+        raise vlib.Infra("app harness failed: " + p.stderr[-1500:])
+    groups = el.split_trace(os.path.join(bd, "at.ndjson"))
+    if len(groups) != len(scs):
+        raise vlib.Infra("harness produced %d groups for %d scenarios" % (len(groups), len(scs)))
+    consts = dict(Scenarios="<- TraceScenarios")
+    res, errs = {}, []
+    def mon():
+        res["mon"] = el.validate_groups(bd, groups, "TraceApp", consts, mon_inv, mon_props, "mon", spec="MonitorSpec")
+    def conf():
+        res["conf"] = el.validate_groups(bd, groups, "TraceApp", consts, tr_inv, [], "conf")
+    def g(fn):
+        try:
+            fn()
+        except Exception as e:
+            errs.append(e)
+    ts = [threading.Thread(target=g, args=(fn,)) for fn in (mon, conf)]
+    for t in ts:
+        t.start()
+    for t in ts:
+        t.join()
+    if errs:
+        raise errs[0]
+    drift = 0
+    for layer in ("mon", "conf"):
+        st, fails = res[layer]
+        run.cov["states"] += st["states"]
+        run.cov["transitions"] += st["generated"]
+        for f in fails:
+            g0 = groups[f["group"]]
+            sc0 = json.loads(g0[0])["sc"]
+            if f["kind"] == "postcondition":
+                if layer == "mon":
+                    raise vlib.Infra("monitor could not consume a trace: " + f["tlc"][:500])
+                drift += 1
+                if drift <= 3:
+                    vlib.log("DRIFT module=App scenario=%s line=%d: %s" % (sc0["id"], f["line"], g0[min(f["line"], len(g0)) - 1].strip()[:300]))
+                continue
+            what = "%s: %s %s violated at event %d of scenario %s" % ("monitor" if layer == "mon" else "conformance",
+                                                                     f["kind"], f["name"], f["line"] - 1, sc0["id"])
+            run.violation(what, dict(scenario=sc0, operator=f["name"], trace=[json.loads(x) for x in g0[1:]][:200], tlc=f["tlc"][:2500]))
+    run.cov["traces_validated_against_impl"] += len(groups)
+    for sc in scs:
+        nontrivial = bool(sc["procs"] or sc["runners"] or sc["loaders"] or sc["closers"])
+        run.count_case({k: sc[k] for k in ("loaders", "procs", "runners", "closers", "comps", "initFail", "closeOrder", "seed")}, nontrivial)
+    for g0 in groups[:3]:
+        run.sample([json.loads(x) for x in g0[:12]])
+    return drift
+
+
 def run_check(prop, tier, replay=None):
     run = vlib.Run(prop, tier, "model_checking")
     rng = random.Random(run.seed * 31337 + int(prop[1:]))
@@ -134,65 +191,23 @@ def run_check(prop, tier, replay=None):
             n = dict(quick=dict(C12=500, C13=600, C14=250), thorough=dict(C12=8000, C13=10000, C14=2500))[tier][prop]
             scs = [al.scenario(rng, "%s-%d" % (prop, i), prop, big=(tier == "thorough" and i % 3 == 0)) for i in range(n)]
             scs += [al.scenario(rng, "%s-m%d" % (prop, i), "mix") for i in range(n // 4)]
-        bd = os.path.join(wd, "b")
-        os.makedirs(bd)
-        vlib.stage_specs(bd, ["Ordering.tla", "App.tla", "TraceApp.tla"])
-        vlib.write_ndjson(os.path.join(bd, "in.ndjson"), scs)
-        p = vlib.run_harness(binary, ["app", "-in", "in.ndjson", "-out", "at.ndjson"], cwd=bd, timeout=1800)
-        if p.returncode != 0:
-            raise vlib.Infra("app harness failed: " + p.stderr[-1500:])
-        groups = el.split_trace(os.path.join(bd, "at.ndjson"))
-        if len(groups) != len(scs):
-            raise vlib.Infra("harness produced %d groups for %d scenarios" % (len(groups), len(scs)))
-        consts = dict(Scenarios="<- TraceScenarios")
-        res, errs = {}, []
-        def mon():
-            res["mon"] = el.validate_groups(bd, groups, "TraceApp", consts, MON_INV[prop], MON_PROPS[prop], "mon", spec="MonitorSpec")
-        def conf():
-            res["conf"] = el.validate_groups(bd, groups, "TraceApp", consts, TR_INV[prop], [], "conf")
+        errs = []
         def srt():
-            if prop == "C12" and replay is None:
-                sort_phase(run, tier, wd, binary)
-        def g(fn):
             try:
-                fn()
+                if prop == "C12" and replay is None:
+                    sort_phase(run, tier, wd, binary)
             except Exception as e:
                 errs.append(e)
-        ts = [threading.Thread(target=g, args=(fn,)) for fn in (mon, conf, srt)]
-        for t in ts:
-            t.start()
-        for t in ts:
-            t.join()
+        st = threading.Thread(target=srt)
+        st.start()
+        drift = real_phase(run, prop, tier, wd, binary, scs, TR_INV[prop], MON_INV[prop], MON_PROPS[prop])
+        st.join()
         if th:
             th.join()
             if mc_err:
                 raise mc_err[0]
         if errs:
             raise errs[0]
-        drift = 0
-        for layer in ("mon", "conf"):
-            st, fails = res[layer]
-            run.cov["states"] += st["states"]
-            run.cov["transitions"] += st["generated"]
-            for f in fails:
-                g0 = groups[f["group"]]
-                sc0 = json.loads(g0[0])["sc"]
-                if f["kind"] == "postcondition":
-                    if layer == "mon":
-                        raise vlib.Infra("monitor could not consume a trace: " + f["tlc"][:500])
-                    drift += 1
-                    if drift <= 3:
-                        vlib.log("DRIFT module=App scenario=%s line=%d: %s" % (sc0["id"], f["line"], g0[min(f["line"], len(g0)) - 1].strip()[:300]))
-                    continue
-                what = "%s: %s %s violated at event %d of scenario %s" % ("monitor" if layer == "mon" else "conformance",
-                                                                         f["kind"], f["name"], f["line"] - 1, sc0["id"])
-                run.violation(what, dict(scenario=sc0, operator=f["name"], trace=[json.loads(x) for x in g0[1:]][:200], tlc=f["tlc"][:2500]))
-        run.cov["traces_validated_against_impl"] += len(groups)
-        for sc in scs:
-            nontrivial = bool(sc["procs"] or sc["runners"] or sc["loaders"] or sc["closers"])
-            run.count_case({k: sc[k] for k in ("loaders", "procs", "runners", "closers", "comps", "initFail", "closeOrder", "seed")}, nontrivial)
-        for g0 in groups[:3]:
-            run.sample([json.loads(x) for x in g0[:12]])
         run.cov["rule"] = ("scenario = loaders x user post-processors x runners (each: ordering class, Order value incl. MinInt/MaxInt, "
                            "failing or not) x closers (failing subset, finishing order) x plain components (one may fail Init) x "
                            "registration order; non-trivial = at least one participant; distinct = distinct records")
